@@ -132,12 +132,23 @@ func (c *Ctx) refLitTagDepth(e ast.Expr, depth int) (tag int64, ptr ast.Expr, ok
 }
 
 // exhaustEdge reports whether taking edge (b,succ) means "a position is ≥ the length of a key".
-func (c *Ctx) exhaustEdge(b *cfg.Block, succ int) bool {
+func (c *Ctx) exhaustEdge(u *FuncUnit, b *cfg.Block, succ int) bool {
 	cond := condOf(c.m.Info, b)
 	if cond == nil {
 		return false
 	}
+	var atoms []atomCond
 	for _, a := range impliedAtoms(cond, succ == 0) {
+		// a named boolean bound once to a comparison
+		if id, ok := ast.Unparen(a.e).(*ast.Ident); ok && u != nil {
+			if d := c.m.resolveLocal(u, id); d != nil {
+				atoms = append(atoms, impliedAtoms(d, a.val)...)
+				continue
+			}
+		}
+		atoms = append(atoms, a)
+	}
+	for _, a := range atoms {
 		be, ok := ast.Unparen(a.e).(*ast.BinaryExpr)
 		if !ok {
 			continue
@@ -447,7 +458,7 @@ func ruleR03R04(c *Ctx) {
 				func(b *cfg.Block, i int, n ast.Node) []int { return evMap[n] },
 				func(b *cfg.Block, succ int) uint8 {
 					var f uint8
-					if c.exhaustEdge(b, succ) {
+					if c.exhaustEdge(u, b, succ) {
 						f |= flagEX
 					}
 					if c.loopExitEdge(b, succ) {
